@@ -2,7 +2,7 @@
 before anything else that can throw runs (otherwise a rejected image leaks the items already built);
 (2) serde<std::string>::deserialize(bytes): each read through the cursor is preceded, in the same iteration, by the
 `bytes_read + <size of that read> > capacity` test that leaves the loop."""
-from astu import strip, strip_all, walk, txt, short, stmts_of, functions_by
+from astu import strip, strip_all, walk, walkp, txt, short, stmts_of, functions_by, local_decls, always_throws
 from vlib.core import ob
 
 
@@ -181,4 +181,76 @@ def narrow_image_arith(facts):
                         out.append(ob("reader.narrow-arith", key, x["loc"], "violated", "`%s` is computed in 32 bits from the image field `%s` and only then converted to %s: for images whose field exceeds 2^%d the high bits are lost before the widening (restored capacity / size wraps)" % (txt(e), used[0]["n"], x.get("t"), 32 - (int(strip_all(e["r"]).get("v", 0)) if e["op"] == "<<" and "v" in strip_all(e["r"]) else 1)), fn["qname"]))
         walk(fn["body"], v)
     out.append(ob("reader.narrow-arith", "all:image-fields-scanned", "", "discharged" if n_locals >= 20 else "unrecognised", "%d 32-bit image fields in readers scanned for 32-bit shift/multiply widened afterwards" % n_locals, ""))
+    return out
+
+
+def decoder_bounds(facts):
+    """CPC decompression: (1) the bit reader takes the next compressed word only after comparing the word index with the number of
+    words it was given (checking after the loop is too late: the read already happened); (2) a row index obtained from decoded
+    pairs is compared with k before it indexes the window.  With these two, an image whose preamble disagrees with its payload
+    (lg_k, coupon counts changed) is rejected without touching memory outside the buffers."""
+    fns = functions_by(facts, ["cpc"])
+    out = []
+    found = 0
+    for pat, fn in sorted(fns.items()):
+        if fn.get("body") is None or "cpc_compressor" not in fn["pat"]:
+            continue
+        params = {p["d"]: p for p in fn["params"]}
+        # (1) reads of a const uint32_t* parameter at an index parameter
+        reads = []
+
+        def v(n, ps):
+            if n.get("k") == "Index":
+                b, i = strip_all(n["b"]), strip_all(n["i"])
+                if b.get("k") == "Ref" and b.get("d") in params and params[b["d"]]["t"].startswith("const unsigned int *"):
+                    ir = []
+                    walk(i, lambda x: ir.append(x) if x.get("k") == "Ref" and x.get("d") in params else None)
+                    if ir:
+                        reads.append((n, ir[0], ps))
+        walkp(fn["body"], v)
+        for j, (n, ir, ps) in enumerate(reads):
+            found += 1
+            key = "%s:word-read#%d:index-checked-first" % (short(fn["patq"]) or fn["name"], j)
+            # a throwing guard mentioning the index and another integer parameter, earlier in an enclosing block
+            ok = False
+            for p in ps:
+                if p.get("k") == "Block":
+                    for s in stmts_of(p):
+                        if s.get("loc") and n.get("loc") and s is not None:
+                            pass
+                        if s.get("k") == "If" and always_throws(s.get("t")):
+                            refs = set()
+                            walk(s["c"], lambda x: refs.add(x.get("d")) if x.get("k") == "Ref" else None)
+                            others = [d for d in refs if d in params and d != ir["d"] and "int" in params[d]["t"]]
+                            if ir["d"] in refs and others:
+                                ok = True
+            out.append(ob("reader.decoder-bounds", key, n["loc"], "discharged" if ok else "violated", "the word index is compared with the number of compressed words (throwing) before the word is read" if ok else "`%s` is read without first comparing the index with the number of words available: an image whose preamble promises more symbols than its payload holds is read past the end of the compressed buffer (the length test after the loop comes too late)" % txt(n), fn["qname"]))
+        # (2) window indexed by a decoded row
+        if fn["name"].startswith("uncompress_"):
+            idx = []
+
+            def w(n, ps):
+                if n.get("k") in ("Index", "OpCall") and "window" in txt(n) and n.get("k") == "OpCall" and n.get("op") == "[]":
+                    i = strip_all(n["args"][1])
+                    if i.get("k") == "Ref" and i.get("dk") == "local":
+                        idx.append((n, i, ps))
+            walkp(fn["body"], w)
+            decls = local_decls(fn)
+            for j, (n, i, ps) in enumerate(idx):
+                ini = decls.get(i["d"], {}).get("init")
+                if ini is None or ">>" not in txt(ini):
+                    continue  # not a row extracted from a decoded pair
+                found += 1
+                ok = False
+                for p in ps:
+                    if p.get("k") == "Block":
+                        for s in stmts_of(p):
+                            if s.get("k") == "If" and always_throws(s.get("t")):
+                                refs = set()
+                                walk(s["c"], lambda x: refs.add(x.get("d")) if x.get("k") == "Ref" else None)
+                                if i["d"] in refs and any(op in txt(s["c"]) for op in (">=", ">")):
+                                    ok = True
+                out.append(ob("reader.decoder-bounds", "%s:window-row#%d:bounded" % (short(fn["patq"]), j), n["loc"], "discharged" if ok else "violated", "the decoded row is compared with k before it indexes the window" if ok else "`%s` is indexed by a row taken from decoded pairs without a bound check: with an lg_k byte smaller than the one the image was written with, rows reach beyond the k-byte window (heap write)" % txt(n)[:40], fn["qname"]))
+    if found < 2:
+        out.append(ob("reader.decoder-bounds", "anchor", "", "unrecognised", "only %d decoder read sites recognised" % found, ""))
     return out
